@@ -191,4 +191,134 @@ theorem rollback_success (fl : RollbackFlags) (l : Ledger) (cur prevRec : Rec)
       intro h; rw [Bool.eq_false_iff] at hdrn; exact hdrn (by simpa using h)
     simp [Function.comp, hnm, tgt, n]
 
+/-- The same from any state of the storage wrapper with no scripted decisions left (the nested
+rollback of an atomic upgrade starts from the state the failed upgrade left).
+A fault-free rollback (no history limit) on ANY history with unique revisions: it reports
+success; every revision that was marked deployed is marked superseded; a new revision, one above
+the highest, carries the content of the target revision and is marked deployed; nothing else
+changes. -/
+theorem rollbackOn_success (fl : RollbackFlags) (s0 : St) (l : Ledger) (hs0 : s0.ledger = l) (hd0 : s0.decs = [])
+    (cur prevRec : Rec)
+    (hdry : fl.dryRun = false) (hmax : fl.maxHistory = 0) (hnd : (revs l).Nodup)
+    (hlast : last? l = some cur)
+    (hprev : get? l (if fl.version = 0 then cur.rev - 1 else fl.version) = some prevRec) :
+    (rollbackOn fl {} s0).2 = .success ∧
+    (rollbackOn fl {} s0).1.ledger = supersedeDeployed l ++ [⟨cur.rev + 1, .deployed, prevRec.payload⟩] := by
+  obtain ⟨hcm, hcr⟩ := last?_spec hlast
+  let n := cur.rev + 1
+  let tgt : Rec := ⟨n, .pendingRollback, prevRec.payload⟩
+  let nh := if fl.disableHooks then 0 else fl.nHooks
+  have hfresh : get? l tgt.rev = none :=
+    get?_none_of_lt l n (fun x hx => by have := rev_le_maxRev l x hx; omega)
+  let s1 : St := (stCreate s0 tgt).2
+  have hs1 : stCreate s0 tgt = (.ok, s1) := by simp [s1, stCreate, nextDec, hd0, hs0, hfresh]
+  have hs1l : s1.ledger = l ++ [tgt] := by simp [s1, stCreate, nextDec, hd0, hs0, hfresh]
+  have hs1d : s1.decs = [] := by simp [s1, stCreate, nextDec, hd0, hs0, hfresh]
+  have huniq : ∀ (s : St), s.ledger = l ++ [tgt] → ∀ x ∈ s.ledger, x.rev = tgt.rev → x = tgt := by
+    intro s hs x hx hr
+    rw [hs] at hx
+    rcases List.mem_append.mp hx with h | h
+    · have := rev_le_maxRev l x h; simp [tgt, n] at hr; omega
+    · simpa using h
+  have hpre := hookPhase_same tgt nh .ok s1 hs1d (by simp [hs1l]) (huniq s1 hs1l)
+  let s2 : St := (hookPhase s1 tgt nh .ok).2
+  have hs2 : hookPhase s1 tgt nh .ok = (.ok, s2) := by
+    apply Prod.ext
+    · simp only [hpre.1]; split <;> rfl
+    · rfl
+  have hs2l : s2.ledger = l ++ [tgt] := by rw [← hs1l]; exact hpre.2.1
+  have hs2d : s2.decs = [] := hpre.2.2
+  have hpost := hookPhase_same tgt nh .ok s2 hs2d (by simp [hs2l]) (huniq s2 hs2l)
+  let s3 : St := (hookPhase s2 tgt nh .ok).2
+  have hs3 : hookPhase s2 tgt nh .ok = (.ok, s3) := by
+    apply Prod.ext
+    · simp only [hpost.1]; split <;> rfl
+    · rfl
+  have hs3l : s3.ledger = l ++ [tgt] := by rw [← hs2l]; exact hpost.2.1
+  have hs3d : s3.decs = [] := hpost.2.2
+  -- the deployed revisions are superseded
+  let dr := (s3.ledger.filter (·.status = .deployed)).map (·.rev)
+  have hnd3 : (revs s3.ledger).Nodup := by
+    rw [hs3l]
+    simp only [revs, List.map_append, List.map_cons, List.map_nil]
+    refine List.nodup_append.mpr ⟨hnd, by simp, ?_⟩
+    intro a ha b hb
+    simp only [List.mem_singleton] at hb
+    subst hb
+    obtain ⟨x, hx, hxa⟩ := List.mem_map.mp ha
+    have := rev_le_maxRev l x hx
+    simp [tgt, n]; omega
+  have hdrsub : ∀ r ∈ dr, r ∈ revs s3.ledger := by
+    intro r hr
+    obtain ⟨x, hx, hxr⟩ := List.mem_map.mp hr
+    exact List.mem_map.mpr ⟨x, (List.mem_filter.mp hx).1, hxr⟩
+  obtain ⟨hsa1, hsa2, hsa3⟩ := supersedeAll_ok dr s3 hs3d hnd3 hdrsub
+  let s4 : St := (rollbackOn.supersedeAll dr s3).2
+  have hs4l : s4.ledger = supersedeRevs dr (l ++ [tgt]) := by rw [← hs3l]; exact hsa3
+  have hn4 : n ∈ revs s4.ledger := by
+    rw [hs4l, revs_supersedeRevs]; simp [revs, tgt]
+  have hu5 := stUpdate_ok s4 { tgt with status := .deployed } hsa2 hn4
+  -- unfold the operation along these steps
+  have hs1' : stCreate s0 ⟨cur.rev + 1, .pendingRollback, prevRec.payload⟩ = (.ok, s1) := hs1
+  have hs2' : hookPhase s1 ⟨cur.rev + 1, .pendingRollback, prevRec.payload⟩ (if fl.disableHooks then 0 else fl.nHooks) .ok = (.ok, s2) := hs2
+  have hs3' : hookPhase s2 ⟨cur.rev + 1, .pendingRollback, prevRec.payload⟩ (if fl.disableHooks then 0 else fl.nHooks) .ok = (.ok, s3) := hs3
+  have hu5' : stUpdate s4 ⟨cur.rev + 1, .deployed, prevRec.payload⟩ = (.ok, (stUpdate s4 { tgt with status := .deployed }).2) := by
+    have : stUpdate s4 { tgt with status := .deployed } = stUpdate s4 ⟨cur.rev + 1, .deployed, prevRec.payload⟩ := rfl
+    rw [← this, hu5]
+  have hres : rollbackOn fl {} s0 = ((stUpdate s4 { tgt with status := .deployed }).2, .success) := by
+    unfold rollbackOn
+    simp only [hs0, hlast, hprev, hdry, Bool.false_eq_true, if_false, storageCreate, hmax, Nat.lt_irrefl, hs1', hs2', hs3']
+    cases hsa : rollbackOn.supersedeAll (List.map (fun x => x.rev) (List.filter (fun x => decide (x.status = Status.deployed)) s3.ledger)) s3 with
+    | mk d s4' =>
+      have hd : d ≠ .crash := by have := hsa1; simp only [dr] at this; rw [hsa] at this; exact this
+      have hs4' : s4' = s4 := by simp only [s4, dr]; rw [hsa]
+      subst hs4'
+      cases d with
+      | crash => exact absurd rfl hd
+      | ok => simp only [hu5']
+      | fail => simp only [hu5']
+  rw [hres]
+  refine ⟨rfl, ?_⟩
+  rw [hu5]
+  simp only [hs4l]
+  unfold supersedeRevs supersedeDeployed
+  simp only [List.map_append, List.map_map, List.map_cons, List.map_nil]
+  -- membership of a revision of l in the deployed list = the record is deployed
+  have hdr : ∀ x ∈ l, dr.contains x.rev = decide (x.status = .deployed) := by
+    intro x hx
+    rw [Bool.eq_iff_iff]
+    simp only [List.contains_iff_mem, decide_eq_true_eq, dr, hs3l, List.filter_append, List.map_append, List.mem_append]
+    constructor
+    · rintro (h | h)
+      · obtain ⟨y, hy, hyr⟩ := List.mem_map.mp h
+        have hy' := List.mem_filter.mp hy
+        have : y = x := eq_of_rev hnd hy'.1 hx hyr
+        subst this; simpa using hy'.2
+      · simp [tgt] at h
+    · intro h
+      exact Or.inl (List.mem_map.mpr ⟨x, List.mem_filter.mpr ⟨hx, by simp [h]⟩, rfl⟩)
+  have hdrn : dr.contains n = false := by
+    rw [Bool.eq_false_iff]
+    intro h
+    have hm : n ∈ dr := by simpa using h
+    obtain ⟨y, hy, hyr⟩ := List.mem_map.mp hm
+    have hy' := List.mem_filter.mp hy
+    rw [hs3l] at hy'
+    rcases List.mem_append.mp hy'.1 with h1 | h1
+    · have := rev_le_maxRev l y h1; omega
+    · simp at h1; subst h1; simp [tgt] at hy'
+  congr 1
+  · apply List.map_congr_left
+    intro x hx
+    have hxn : ¬ x.rev = tgt.rev := by have := rev_le_maxRev l x hx; simp [tgt, n]; omega
+    simp only [Function.comp]
+    rw [hdr x hx]
+    by_cases hd : x.status = .deployed
+    · simp [hd, hxn]
+    · simp [hd, hxn]
+  · have hnm : ¬ (cur.rev + 1 ∈ dr) := by
+      intro h; rw [Bool.eq_false_iff] at hdrn; exact hdrn (by simpa using h)
+    simp [Function.comp, hnm, tgt, n]
+
+
 end Helm.Ledger
